@@ -381,6 +381,12 @@ class Program(object):
                     if isinstance(a, FuncInfo):
                         return a
                 break
+        # private functions addressed by the name they have on the pinned tree: found by role when renamed or moved
+        from . import roles
+
+        alias = roles.by_canonical_name(self, qualname)
+        if alias is not None:
+            return alias
         raise AnalysisError("anchor vanished: function %s" % qualname)
 
     def mro(self, ci: Union[ClassInfo, Ext]) -> List[object]:
